@@ -34,10 +34,10 @@ func (sc *Scenario) Exec() explore.Exec {
 				th := th
 				harness.Go(func() {
 					th(s)
-					s.Done++
+					s.MarkDone()
 				})
 			}
-			harness.BlockUntil(func() bool { return s.Done == n })
+			harness.BlockUntil(func() bool { return s.DoneCount() == n })
 			harness.Quiesce()
 			harness.SetEventHook(nil)
 			s.CheckReads()
@@ -70,6 +70,6 @@ func (sc *Scenario) Exec() explore.Exec {
 }
 
 func (sc *Scenario) Profile(bound int) Profile {
-	return Profile{Name: sc.Name, Exec: sc.Exec(), Budget: map[int]int{explore.ClassSched: bound, explore.ClassRand: 0}, ShardLevel: 2,
+	return Profile{Name: sc.Name, Exec: sc.Exec(), Budget: map[int]int{explore.ClassSched: bound, explore.ClassRand: 0}, ShardLevel: 2, FreeRun: true,
 		Rule: fmt.Sprintf("%s; every schedule with at most %d preemptions (scheduling points: every mutex, atomic and channel operation, every accessor of the unsynchronised node/item locations, every file call, every visitor callback); executions run to completion", sc.Desc, bound)}
 }
